@@ -95,6 +95,43 @@ for D in (1, 2, 3):
                             'IMPLIES(0 <= g_p && g_p < (%s) - (%s), %s == %s)' % (hi_, lo_, addr0('ret', first_index('ret') + ' + g_p'), addr0('self', '(%s) + g_p' % lo_)))],
                   covers=['g_f0 < 0 && g_n0 > 2' if not zb else 'g_n0 > 2', 'g_p > 1'],
                   assigns=['*ret'], mode='uf', solvers=('cvc5', 'cadical'), timeout=900)
+        # ---------------------------------------------------------------- reindexed(k) / blocked(first, last)   (C19: re-indexing changes which indices are valid, never which elements are viewed)
+        Check('S%d_reindexed%s' % (D, suf), props[:1], 'subarray', fn='w_S%d_reindexed%s' % (D, suf), params=['ret', 'self', 'k'],
+              wrapper=('void', 'CS<%d>* ret, CS<%d>* self, multi::index k' % (D, D), 'new(ret) CS<%d>(self->reindexed(k));' % D),   # the const& overload does not exist for D = 1
+              cxx={'self': SUB(D), 'ret': SUB(D)}, ghosts=ghosts_fn(D) + [(I64, 'g_p')],
+              requires=base_req + zreq + ['INR(k) && INR(g_p)', 'INOFF(MUL(k, self->stride_))'],
+              lemmas=WF_lemmas('self', D, dims=[0]) + zlem + ['LEMMA_DIST(g_f0, g_p, self->stride_)', 'LEMMA_DIST(k, g_p, self->stride_)', 'LEMMA_MULDIV(k, self->stride_)', 'LEMMA_MULREM(k, self->stride_)'],
+              ensures=[('same storage, same stride and size, inner dimensions untouched', 'ret->base_ == self->base_ && ret->stride_ == self->stride_ && ret->nelems_ == self->nelems_ && ' + inner_same),
+                       ('the valid indices now start at k', 'ret->offset_ == MUL(k, ret->stride_)'),
+                       ('p-th element of the result is the p-th element of self (only the index changes, never the element)',
+                        'IMPLIES(0 <= g_p && g_p < g_n0, %s == %s)' % (addr0('ret', 'k + g_p'), addr0('self', 'g_f0 + g_p')))],
+              covers=['k < 0 && g_n0 > 1', 'k > 0 && g_p > 0'], assigns=['*ret'], mode='uf', solvers=('cvc5', 'cadical'))
+        Check('S%d_blocked%s' % (D, suf), props[:1], 'subarray', fn='w_S%d_blocked%s' % (D, suf), params=['ret', 'self', 'first', 'last'],
+              # the & overload: the const& overload of blocked() does not compile for D > 1 at the pinned commit (return type basic_const_array) and does not exist for D = 1
+              wrapper=('void', 'CS<%d>* ret, CS<%d>* self, multi::index first, multi::index last' % (D, D), 'new(ret) CS<%d>(self->blocked(first, last));' % D),
+              cxx={'self': SUB(D), 'ret': SUB(D)}, ghosts=ghosts_fn(D) + [(I64, 'g_p')],
+              requires=base_req + zreq + ['INR(first) && INR(last) && first <= last', 'first == last || (g_f0 <= first && last <= g_f0 + g_n0)', 'INR(g_p)', 'INOFF(MUL(first, self->stride_))',
+                                          '%s == 0 && %s == 1' % (lp('self', D, 'offset_'), lp('self', D, 'nelems_'))],
+              lemmas=WF_lemmas('self', D, dims=[0]) + zlem + ['LEMMA_DIST(g_f0, g_p, self->stride_)', 'LEMMA_DIST(first, g_p, self->stride_)', 'LEMMA_COMM(self->stride_, last - first)', 'LEMMA_MULDIV(g_n0, self->stride_)',
+                      'LEMMA_COMM(g_n0, self->stride_)', 'LEMMA_MULDIV(self->stride_, g_n0)', 'LEMMA_MULDIV(first, self->stride_)', 'LEMMA_MULREM(first, self->stride_)', 'LEMMA_MUL0(self->stride_)'],
+              ensures=[('stride kept, inner dimensions untouched', 'ret->stride_ == self->stride_ && ' + inner_same),
+                       ('the block keeps the indices [first, last) of self', 'ret->nelems_ == MUL(last - first, ret->stride_) && ret->offset_ == MUL(first, ret->stride_)'),
+                       ('element first+p of the block is element first+p of self', 'IMPLIES(0 <= g_p && g_p < last - first, %s == %s)' % (addr0('ret', 'first + g_p'), addr0('self', 'first + g_p')))],
+              covers=['first > g_f0 && last < g_f0 + g_n0 && g_p > 0', 'first == last'], assigns=['*ret'], mode='uf', solvers=('cvc5', 'cadical'))
+        # ---------------------------------------------------------------- diagonal()  (D >= 2, zero-based: the library slices with {0, min(n0,n1)})
+        if D >= 2 and zb:
+            sq = '(g_n0 < g_n1 ? g_n0 : g_n1)'
+            Check('S%d_diagonal' % D, ['C01'], 'subarray', fn='w_S%d_diagonal' % D, params=['ret', 'self'],
+                  wrapper=('void', 'CS<%d>* ret, CS<%d> const* self' % (D-1, D), 'new(ret) CS<%d>(self->diagonal());' % (D-1)),
+                  cxx={'self': SUB(D), 'ret': SUB(D-1)}, ghosts=ghosts_fn(D) + [(I64, 'g_p')],
+                  requires=base_req + zreq + ['INR(g_p)', '%s == 0 && %s == 1' % (lp('self', D, 'offset_'), lp('self', D, 'nelems_')), 'g_n0 > 0 && g_n1 > 0', 'INOFF(self->stride_ + self->sub_.stride_)', 'self->stride_ + self->sub_.stride_ != 0'],
+                  lemmas=WF_lemmas('self', D, dims=[0, 1]) + zlem + ['LEMMA_DIST(g_p, g_p, 1)', 'LEMMA_DISTL(g_p, self->stride_, self->sub_.stride_)', 'LEMMA_DISTL(%s, self->stride_, self->sub_.stride_)' % sq,
+                          'LEMMA_COMM(self->stride_, %s)' % sq, 'LEMMA_COMM(self->sub_.stride_, %s)' % sq, 'LEMMA_COMM(self->stride_, g_n0)', 'LEMMA_COMM(self->sub_.stride_, g_n1)',
+                          'LEMMA_MULDIV(self->stride_, g_n0)', 'LEMMA_MULDIV(self->sub_.stride_, g_n1)', 'LEMMA_COMM(g_p, self->stride_)', 'LEMMA_COMM(g_p, self->sub_.stride_)', 'LEMMA_COMM(g_p, self->stride_ + self->sub_.stride_)',
+                          'LEMMA_MUL0(self->stride_)', 'LEMMA_MUL0(self->sub_.stride_)', 'LEMMA_MUL0(%s)' % sq],
+                  ensures=[('the diagonal has min(n0, n1) elements, stride s0 + s1, zero-based; the remaining dimensions are those of self', 'ret->stride_ == self->stride_ + self->sub_.stride_ && ret->nelems_ == MUL(%s, ret->stride_) && ret->offset_ == 0' % sq + (' && ' + ' && '.join(same_dim('ret', k, 'self', k+1) for k in range(1, D-1)) if D > 2 else '')),
+                           ('p-th element of the diagonal is element (p, p) of self', 'IMPLIES(0 <= g_p && g_p < %s, ret->base_ + MUL(g_p, ret->stride_) == self->base_ + MUL(g_p, self->stride_) + MUL(g_p, self->sub_.stride_))' % sq)],
+                  covers=['g_n0 > g_n1 && g_p > 0', 'g_n0 < g_n1'], assigns=['*ret'], mode='uf', solvers=('cvc5', 'cadical'), timeout=900)
         # ---------------------------------------------------------------- dropped(n) / taked(n)
         Check('S%d_dropped%s' % (D, suf), props, 'subarray',
               fn_re=CSn(D) + r'::dropped_aux_\(long\) const', params=['ret', 'self', 'n'],
